@@ -163,7 +163,11 @@ def _run_worker_shape(shape, res, sink):
                 n = k
             elif src == "idx":
                 L = core.fork_int(_len_sym(), 1, 6)
-                idx = symnp.SymArray(symnp._obj([core.integer("idx%d" % i) for i in range(L)]), symnp._I8)
+                cells = [core.integer("idx%d" % i) for i in range(L)]
+                for c in cells:
+                    core.assume(c >= 0)
+                    core.assume(c <= 40)
+                idx = symnp.SymArray(symnp._obj(cells), symnp._I8)
                 kw["samples_idx"] = idx
                 n = L
             results = mp.run_worker(worker, pool, "lib.hdf5", task_args=("lib.hdf5", "HELPER"), n_batches=nb, rng=rng, **kw)
@@ -192,7 +196,7 @@ def _run_worker_shape(shape, res, sink):
             same = len(flat) == len(idx) and all(a is b or (core.is_sym(a) and core.is_sym(b) and z3.eq(a.e, b.e)) for a, b in zip(flat, idx.a))
             nonempty = all(len(t[0]) > 0 for t in tasks)
             sink.check(path, "rw.idx_cover", core.SB(z3.BoolVal(same and nonempty)), site="run_worker",
-                       describe=lambda m: {"len_idx": n, "n_batches": nb, "pool_size": psize})
+                       describe=lambda m: {"rw_idx": [int(core.model_value(m, c)) for c in idx.a], "n_batches": nb, "pool_size": psize})
         else:
             _spec_tasks(sink, path, tasks, 0, n, eff_nb, "idx", ("lib.hdf5", "HELPER"), "rw.")
         # every task got its own child generator, pairwise distinct streams, spawned from the parent
@@ -216,8 +220,40 @@ def _len_sym():
 # replay on the real build (plain-Python oracle written from the property statement)
 # ---------------------------------------------------------------------------------------------
 
+def _replay_run_worker(m):
+    import tempfile, shutil
+    import numpy as np
+    import astropy.units as u
+    from thejoker.samples import JokerSamples
+    from thejoker.multiproc_helpers import run_worker
+    idx = np.array(m["rw_idx"], dtype=int)
+    # distinct, non-negative indices are what callers pass (rng.choice without replacement); shift the model into that domain
+    d = tempfile.mkdtemp(prefix="verif_c16_")
+    try:
+        nrows = int(max(idx.max() + 1, 1)) if len(idx) else 1
+        s = JokerSamples()
+        s["P"] = np.arange(1, nrows + 1) * u.day
+        fn = os.path.join(d, "lib.hdf5")
+        s.write(fn, overwrite=True)
+
+        class P:
+            size = m["pool_size"]
+            def map(self, f, tasks): return [f(t) for t in tasks]
+            def close(self): pass
+        got = run_worker(lambda task: task, P(), fn, task_args=("x",), n_batches=m["n_batches"], samples_idx=idx)
+        flat = [int(v) for t in got for v in np.atleast_1d(t[0])]
+        ok = flat == [int(v) for v in idx] and all(len(np.atleast_1d(t[0])) > 0 for t in got)
+        return {"reproduced": not ok, "detail": "run_worker(samples_idx=%s, n_batches=%s, pool.size=%s) handed out %s" % (idx.tolist(), m["n_batches"], m["pool_size"], flat)}
+    finally:
+        shutil.rmtree(d, ignore_errors=True)
+
+
 def replay(cand):
     m = cand.get("model") or {}
+    if "rw_idx" in m:
+        if any(v < 0 for v in m["rw_idx"]):
+            return {"reproduced": False, "detail": "model uses negative indices"}
+        return _replay_run_worker(m)
     if "n_tasks" not in m:
         return {"reproduced": False, "detail": "no concrete input in candidate"}
     from thejoker.utils import batch_tasks
